@@ -1,11 +1,125 @@
 /-
-  miscmodel driver part: Codec (stub until the model lands).
+  miscmodel driver part: packet-data codecs (C35).
+  Requests carry byte strings as lower-case hex; the ICS-20 amount is a JSON string.
+  Answers: {"ok": …} | {"err": "<class>"} | {"panic": "<msg>"} (the model never produces the last
+  one — `IbcVerif.C35.*_decode_total`).
 -/
 import IbcVerif.Util.J
+import IbcVerif.Model.Abi
+import IbcVerif.Model.AbiAmount
+import IbcVerif.Model.Proto
 open Lean
 namespace IbcVerif.Driver.MiscCodec
-open IbcVerif.J
+open IbcVerif IbcVerif.J IbcVerif.Abi
 
-def handle (_f : String) (_j : Json) : Option (Except String Json) := none
+def ofG {α : Type} (cls : String) (f : α → Json) : G α → Json
+  | .ok a => ok (f a)
+  | .err _ => err cls
+  | .panic m => Json.mkObj [("panic", Json.str m)]
+
+def hx (b : Bytes) : Json := Json.str (hex b)
+
+def ftpdJson (d : Ftpd) : Json :=
+  Json.mkObj [("denom", hx d.denom), ("amount", Json.str (String.ofList d.amount)), ("sender", hx d.sender),
+    ("receiver", hx d.receiver), ("memo", hx d.memo)]
+
+def getFtpd (j : Json) : Except String Ftpd := do
+  pure ⟨← bytes j "denom", (← str j "amount").toList, ← bytes j "sender", ← bytes j "receiver", ← bytes j "memo"⟩
+
+def gmpJson (d : Gmp) : Json :=
+  Json.mkObj [("sender", hx d.sender), ("receiver", hx d.receiver), ("salt", hx d.salt), ("payload", hx d.payload), ("memo", hx d.memo)]
+
+def getGmp (j : Json) : Except String Gmp := do
+  pure ⟨← bytes j "sender", ← bytes j "receiver", ← bytes j "salt", ← bytes j "payload", ← bytes j "memo"⟩
+
+def compactJson (p : PacketCompact) : Json := Json.mkObj [("path", hx p.path), ("commitment", hx p.commitment)]
+
+def getPacketAtt (j : Json) : Except String PacketAtt := do
+  let h ← nat j "height"
+  let ps ← arr j "packets"
+  let ps ← ps.toList.mapM (fun p => do pure (⟨← bytes p "path", ← bytes p "commitment"⟩ : PacketCompact))
+  pure ⟨h, ps⟩
+
+def intJson : Option (Bool × Nat) → Json
+  | some (neg, n) => Json.str ((if neg then "-" else "") ++ toString n)
+  | none => Json.null
+
+def valsJson (names : List String) (vals : List Bytes) : Json :=
+  Json.mkObj (names.zip (vals.map hx))
+
+def ftpdNames : List String := ["denom", "amount", "sender", "receiver", "memo"]
+def gmpNames : List String := ["sender", "receiver", "salt", "payload", "memo"]
+def ackNames : List String := ["result"]
+
+def getVals (j : Json) (names : List String) : Except String (List Bytes) := names.mapM (fun n => bytes j n)
+
+def handle (f : String) (j : Json) : Option (Except String Json) :=
+  match f with
+  -- Solidity ABI
+  | "abi.ics20.enc" => some do
+      let d ← getFtpd j
+      pure <| ofG "abi-encoding" hx (encodeFtpd d)
+  | "abi.ics20.dec" => some do
+      let b ← bytes j "data"
+      pure <| ofG "abi-decoding" ftpdJson (decodeFtpd b)
+  | "abi.gmp.enc" => some do
+      let d ← getGmp j
+      pure <| okHex (encodeGmp d)
+  | "abi.gmp.dec" => some do
+      let b ← bytes j "data"
+      pure <| ofG "abi-decoding" gmpJson (decodeGmp b)
+  | "abi.gmp.unmarshal" => some do
+      let b ← bytes j "data"
+      pure <| ofG "invalid-type" gmpJson (unmarshalGmpAbi b)
+  | "abi.gmpack.enc" => some do
+      let r ← bytes j "result"
+      pure <| okHex (encodeAck r)
+  | "abi.gmpack.dec" => some do
+      let b ← bytes j "data"
+      pure <| ofG "abi-decoding" (fun r => Json.mkObj [("result", hx r)]) (decodeAck b)
+  | "abi.gmpack.unmarshal" => some do
+      let b ← bytes j "data"
+      pure <| ofG "invalid-type" (fun r => Json.mkObj [("result", hx r)]) (unmarshalAckAbi b)
+  | "abi.state.enc" => some do
+      let h ← nat j "height"; let t ← nat j "timestamp"
+      pure <| okHex (encodeState ⟨h, t⟩)
+  | "abi.state.dec" => some do
+      let b ← bytes j "data"
+      pure <| ofG "invalid-attestation" (fun s => Json.mkObj [("height", num s.height), ("timestamp", num s.timestamp)]) (decodeState b)
+  | "abi.packetatt.enc" => some do
+      let a ← getPacketAtt j
+      pure <| okHex (encodePacketAtt a)
+  | "abi.packetatt.dec" => some do
+      let b ← bytes j "data"
+      pure <| ofG "invalid-attestation"
+        (fun a => Json.mkObj [("height", num a.height), ("packets", Json.arr (a.packets.map compactJson).toArray)]) (decodePacketAtt b)
+  | "abi.compact.enc" => some do
+      let p ← bytes j "path"; let c ← bytes j "commitment"
+      pure <| okHex (encodeCompact ⟨p, c⟩)
+  -- protobuf
+  | "proto.ics20.enc" => some do pure <| okHex (Proto.encode (← getVals j ftpdNames))
+  | "proto.gmp.enc" => some do pure <| okHex (Proto.encode (← getVals j gmpNames))
+  | "proto.gmpack.enc" => some do pure <| okHex (Proto.encode (← getVals j ackNames))
+  | "proto.ics20.dec" => some do
+      pure <| ofG "invalid-type" (valsJson ftpdNames) (Proto.decode 5 (← bytes j "data"))
+  | "proto.gmp.dec" => some do
+      pure <| ofG "invalid-type" (valsJson gmpNames) (Proto.decodeCanonical 5 (← bytes j "data"))
+  | "proto.gmpack.dec" => some do
+      pure <| ofG "invalid-type" (valsJson ackNames) (Proto.decodeCanonical 1 (← bytes j "data"))
+  | "proto.ics20.raw" => some do
+      pure <| ofG "proto" (valsJson ftpdNames) (Proto.unmarshal 5 (← bytes j "data"))
+  | "proto.gmp.raw" => some do
+      pure <| ofG "proto" (valsJson gmpNames) (Proto.unmarshal 5 (← bytes j "data"))
+  | "proto.gmpack.raw" => some do
+      pure <| ofG "proto" (valsJson ackNames) (Proto.unmarshal 1 (← bytes j "data"))
+  | "proto.reject" => some do
+      let k ← nat j "k"
+      pure <| ofG "unknown-field" (fun _ => Json.str "clean") (Proto.rejectUnknown k (← bytes j "data"))
+  -- amounts
+  | "amount.parse" => some do
+      let s := (← str j "s").toList
+      pure <| Json.mkObj [("sdk", intJson (newIntFromString s)), ("big10", intJson (parseBig10 s)),
+        ("valid", match validAmount s with | some n => Json.str (toString n) | none => Json.null)]
+  | _ => none
 
 end IbcVerif.Driver.MiscCodec
